@@ -1,4 +1,4 @@
-//! C19 — the statistics log: correspondence with Model/JsonEscape.v + Model/Stats.v (extracted) and the
+//! C19 — the statistics log: correspondence with Model/JsonEscape.v + Model/Stats.v + Model/C19Record.v (extracted) and the
 //! property oracle on the implementation (harper-stats Stats::write/read/summarize through a real file
 //! opened in append mode the way harper-ls's save_stats does, harper-wasm's generate/import_stats_file,
 //! serde_json's string escaping, std's BufRead::lines).
@@ -256,6 +256,60 @@ fn pieces_of_line(line: &[u8]) -> Option<Vec<Piece>> {
     Some(ps)
 }
 
+fn dots_cps(s: &str) -> String {
+    s.chars().map(|c| (c as u32).to_string()).collect::<Vec<_>>().join(".")
+}
+/// what the model's reader of the concrete Record (Model/C19Record.v, case J) must say about the line serde wrote
+/// for `r`: rejected ("N") iff serde_json rejects it; otherwise that the model's writer reprints the line exactly,
+/// the lint kind (999 = configuration update), the Word(None) contents and the texts of the Number values
+fn j_expected(r: &Record, back: &Option<Record>) -> String {
+    if back.is_none() {
+        return "N".into();
+    }
+    match &r.kind {
+        RecordKind::Lint { kind, context } => {
+            let ws: Vec<String> = context.iter().filter(|t| matches!(t.kind, TokenKind::Word(None))).map(|t| dots_cps(&t.content)).collect();
+            let ns: Vec<String> = context
+                .iter()
+                .filter_map(|t| if let TokenKind::Number(n) = &t.kind { Some(serde_json::to_string(&n.value.0).unwrap_or_default().bytes().map(|b| b.to_string()).collect::<Vec<_>>().join(".")) } else { None })
+                .collect();
+            format!("1 k={} w={} n={}", kind_index(*kind), ws.join(","), ns.join(","))
+        }
+        RecordKind::LintConfigUpdate(_) => "1 k=999 w= n=".into(),
+    }
+}
+/// case Q: the lines as a log through the model's read + summarize over the modelled records
+fn q_expected(lines: &[Vec<u8>]) -> String {
+    let mut buf = vec![];
+    for l in lines {
+        buf.extend_from_slice(l);
+        buf.push(b'\n');
+    }
+    let st = match guarded(|| Stats::read(&mut &buf[..])) {
+        Ok(Ok(st)) => st,
+        _ => return "ERR".into(),
+    };
+    let sum = match guarded(|| st.summarize()) {
+        Ok(s) => s,
+        Err(_) => return "PANIC".into(),
+    };
+    let kinds: BTreeMap<usize, u32> = sum.lint_counts.iter().map(|(k, v)| (kind_index(*k), *v)).collect();
+    let mut ws: Vec<(String, u32)> = sum.misspelled.iter().map(|(k, v)| (dots_cps(k), *v)).collect();
+    ws.sort();
+    let mut cfg: Vec<(Vec<u8>, String)> = match serde_json::to_value(&sum.final_config) {
+        Ok(Value::Object(m)) => m.iter().map(|(k, v)| (k.as_bytes().to_vec(), format!("{}={}", dots_cps(k), match v { Value::Bool(true) => "1", Value::Bool(false) => "0", _ => "2" }))).collect(),
+        _ => vec![],
+    };
+    cfg.sort();
+    format!(
+        "T={} K={} C={} W={}",
+        sum.total_applied,
+        kinds.iter().map(|(k, c)| format!("{k}:{c}")).collect::<Vec<_>>().join(","),
+        cfg.iter().map(|(_, e)| e.clone()).collect::<Vec<_>>().join(";"),
+        ws.iter().map(|(w, c)| format!("{w}:{c}")).collect::<Vec<_>>().join(",")
+    )
+}
+
 fn has_nonfinite(r: &Record) -> bool {
     match &r.kind {
         RecordKind::Lint { context, .. } => context.iter().any(|t| matches!(&t.kind, TokenKind::Number(n) if !n.value.0.is_finite())),
@@ -354,6 +408,11 @@ impl LogChecker {
             Some(b) if b == r => rep.monitor("contract: from_str(to_string(r)) == r", 1),
             Some(_) => rep.monitor("contract_violated: from_str(to_string(r)) is a different record", 1),
             None => rep.monitor("contract_violated: from_str(to_string(r)) fails", 1),
+        }
+        if first && line.len() <= 6000 {
+            // J: the model's concrete Record reader / writer against this real line
+            rep.case(&format!("J {}", ints(&line)), &j_expected(r, &back));
+            rep.count(if back.is_some() { "record_line:model_reader_must_accept" } else { "record_line:model_reader_must_reject" });
         }
         if first {
             match pieces_of_line(&line) {
@@ -571,6 +630,11 @@ impl LogChecker {
         let case = format!("R {}", fields.join("|"));
         if case.len() <= 400_000 {
             rep.case(&case, &format!("{}|{}", digest(&file), impl_read).trim_end().to_string());
+        }
+        // Q case: the same lines through the model's reader of the concrete Record + summarize over the modelled records
+        let qcase = format!("Q {}", lines.iter().map(|l| ints(l)).collect::<Vec<_>>().join("|"));
+        if qcase.len() <= 200_000 && !lines.is_empty() {
+            rep.case(&qcase, &q_expected(&lines));
         }
         // (3) summarize
         self.check_summary(rep, &all, &inp);
@@ -1130,10 +1194,17 @@ fn check_wasm(rep: &mut Report, texts: &[Vec<String>], origin: &str) {
 //   (lexer)  a Number made from text is finite      — lex_number (is_finite filter, b5c1992), lex_hex_number (u64)
 //   (float)  serde_json re-reads every finite f64 it prints, bit for bit — float_roundtrip (abf6ba7)
 // ------------------------------------------------------------------------------------------------
+/// the contract `float_rt` of C19_record_* / C19_text_log_*: the text serde_json prints for a finite f64 is non-empty,
+/// consists of the characters of a JSON number ([0-9+-.eE], what the model's reader hands to the float parser as one
+/// token) and is read back as the same f64, bit for bit
 fn float_rereads_exactly(x: f64) -> bool {
-    match serde_json::to_string(&x).ok().and_then(|t| serde_json::from_str::<f64>(&t).ok()) {
-        Some(y) => y.to_bits() == x.to_bits(),
-        None => false,
+    let Ok(t) = serde_json::to_string(&x) else { return false };
+    if t.is_empty() || !t.bytes().all(|b| b.is_ascii_digit() || matches!(b, b'+' | b'-' | b'.' | b'e' | b'E')) {
+        return false;
+    }
+    match serde_json::from_str::<f64>(&t) {
+        Ok(y) => y.to_bits() == x.to_bits(),
+        Err(_) => false,
     }
 }
 
@@ -1335,7 +1406,7 @@ fn replay_input(rep: &mut Report, lc: &mut LogChecker, cx: &mut Ctx, v: &Value, 
 
 fn run(a: &Args, corpus: &[Value]) {
     let mut rep = Report::new(&a.out);
-    rep.rule = "strings: hand list of nasty fragments (all C0 controls, quotes, backslashes, DEL, C1, U+2028/2029, BOM, noncharacters, astral) mixed with words, random scalars of every UTF-8 length; JSON literals: well-formed + damaged (bad escapes, lone/unpaired surrogates, raw controls, invalid UTF-8); byte strings for BufRead::lines heavy in LF/CR/CRLF and UTF-8 boundary bytes; logs: 1-6 append sessions of 0-8 records (lint records with 0-9 context tokens of every TokenKind, dictionary metadata, numbers incl. huge/denormal/decimal-derived, config updates with arbitrary keys), written through a real file opened like harper-ls's save_stats (also unbuffered append and harper-wasm style import+generate), plus records of all lints of generated documents; texts with number literals at the edges of f64 (1e999, 1e309, 309-digit integers, hex, random mantissa/exponent, mostly with an upper-case ordinal suffix so that a lint records the Number) through the real lexer and linters; finite f64 bit patterns through serde_json's printer/parser; a separate correspondence-only stream of hand-assembled records with non-finite Numbers (not constructible from text: outside the property, not judged). thorough: every Unicode scalar value as a one-character string. non-trivial = distinct string needing an escape, or distinct multi-session log of >= 2 records".into();
+    rep.rule = "strings: hand list of nasty fragments (all C0 controls, quotes, backslashes, DEL, C1, U+2028/2029, BOM, noncharacters, astral) mixed with words, random scalars of every UTF-8 length; JSON literals: well-formed + damaged (bad escapes, lone/unpaired surrogates, raw controls, invalid UTF-8); byte strings for BufRead::lines heavy in LF/CR/CRLF and UTF-8 boundary bytes; logs: 1-6 append sessions of 0-8 records (lint records with 0-9 context tokens of every TokenKind, dictionary metadata, numbers incl. huge/denormal/decimal-derived, config updates with arbitrary keys), written through a real file opened like harper-ls's save_stats (also unbuffered append and harper-wasm style import+generate), plus records of all lints of generated documents; texts with number literals at the edges of f64 (1e999, 1e309, 309-digit integers, hex, random mantissa/exponent, mostly with an upper-case ordinal suffix so that a lint records the Number) through the real lexer and linters; finite f64 bit patterns through serde_json's printer/parser; a separate correspondence-only stream of hand-assembled records with non-finite Numbers (not constructible from text: outside the property, not judged). every distinct record line also goes through the extracted reader/writer of the concrete Record (J) and every log through the extracted read + summarize over the modelled records (Q). thorough: every Unicode scalar value as a one-character string. non-trivial = distinct string needing an escape, or distinct multi-session log of >= 2 records".into();
     let mut lc = LogChecker::new();
     let mut cx = Ctx::new();
     let dir = a.out.clone();
